@@ -33,7 +33,7 @@ def budget(tier):
 
 
 def essential_labels(tier):
-    return ["dynamic_item_array_not_at_offset_0", "nd_dynamic_strides_from_header", "ref_in_path", "union_called", "non_C_order", "after_growth"]
+    return ["dynamic_item_array_not_at_offset_0", "nd_dynamic_strides_from_header", "ref_in_path", "union_called", "non_C_order", "after_growth", "three_cycle_order_dynamic_items"]
 
 
 @st.composite
